@@ -59,7 +59,9 @@ func init() {
 				txt := bifs.BIF_strftime_local_ternary(mlrval.FromInt(n), f, z)
 				back := bifs.BIF_strptime_local_ternary(txt, f, z)
 				gm := bifs.BIF_sec2gmt_unary(mlrval.FromInt(n))
-				return hx(txt.String()) + " " + back.String() + " " + hx(gm.String())
+				// the text of the instant parsed back: equal texts with different instants = a DST overlap
+				again := bifs.BIF_strftime_local_ternary(back, f, z)
+				return hx(txt.String()) + " " + back.String() + " " + hx(gm.String()) + " " + hx(again.String())
 			case "fdhms": // fsec2dhms / dhms2fsec, fsec2hms / hms2fsec to 1e-6; arg: float text
 				x, _ := strconv.ParseFloat(a[1], 64)
 				d := bifs.BIF_fsec2dhms(mlrval.FromFloat(x))
